@@ -6,6 +6,12 @@ TECH = "runtime monitoring: post-conditions / lock-step reference models / offli
 
 # id -> (category, technique, level text, level note, design ref)
 CLAIMED = {
+ "C04": ("exploration", "recording probes on the condition's samplers + instrumented residual / data functions from a DSL with numpy twins + closed-form models with analytic float64 twins; the loss is recomputed independently from the recorded points",
+         "Held on K forward() calls over all condition kinds x samplers (static / finite resample interval / filtered / products / parameters) x independently permuted space orderings x data functions x learnable Parameters x custom error/reduce functions: the returned loss equals the documented reduction on exactly the recorded points (relative 1e-5) and every residual argument carries the rows and columns it is named for. Four known findings recorded (D24, D25, integro static data layout, joined Parameters).",
+         "FCN / DeepONet expected outputs come from a direct call of the module on the recorded points (closed-form models have analytic twins); name clashes between outputs and coordinates are not generated.", "DESIGN.md 4 C04"),
+ "C14": ("exploration", "'alone vs in company' differential histories with identity/content snapshots of every user-supplied container; data arguments checked against the rows of the current call",
+         "Held on K groups of 2-4 conditions sharing user objects (data_functions dict, domain, sampler's domain, default arguments): every condition computes in company what it computes alone (1e-6), user containers are unchanged, static samplers give repeatable losses, periodic left/right data are evaluated on their own side. One known finding recorded (D25).",
+         "Deterministic grid / seeded static samplers; sampler objects are shared only when static without resampling or pure grids (the use count of other shared samplers legitimately depends on the company).", "DESIGN.md 4 C14"),
  "C07": ("exploration", "lock-step differential run: real Solver + Lightning Trainer vs a plain PyTorch reference loop built from the same spec; probes on condition calls (iteration index, once per step), optimizer membership by an own attribute walk, state snapshots around validation",
          "Held on K generated training worlds (1-4 weighted conditions, shared/separate models, inverse-problem Parameters, adaptive weights, SGD/Adam/AdamW/RMSprop/Adagrad, schedulers, validation, multi-epoch): after every step the learnable and optimizer state equal the reference loop (observed difference exactly 0), every reachable learnable tensor is optimised, adaptive weights ascend, validation never changes state.",
          "Individual condition losses are taken from the library's condition objects (C04's subject); deterministic samplers; CPU; no gradient accumulation / clipping.", "DESIGN.md 4 C07"),
